@@ -146,7 +146,7 @@ type rw interface {
 func runLoop(c Case) []V {
 	var vs vset
 	inc := func(format string, a ...any) []V {
-		return []V{{inconclusive + c.Kind + "-" + c.Backend, fmt.Sprintf(format, a...)}}
+		return []V{{inconclusive + strings.TrimSuffix(c.Kind+"-"+c.Backend, "-"), fmt.Sprintf(format, a...)}}
 	}
 	loopEnv.once.Do(loopEnv.start)
 	if loopEnv.err != nil {
@@ -256,7 +256,10 @@ func runLoop(c Case) []V {
 	if c.Kind != "loop-ws" {
 		ref.Takeover = false
 	}
-	where := c.Kind + "-" + c.Backend + "/" + c.Cfg.Mode
+	where := c.Kind + "/" + c.Cfg.Mode
+	if c.Backend != "" {
+		where = c.Kind + "-" + c.Backend + "/" + c.Cfg.Mode
+	}
 	var dictAB, dictBA []byte
 	var sumAB, sumBA, nAB, nBA uint64
 	for step, op := range wsOps(c.Seq, "duplex") {
@@ -267,7 +270,7 @@ func runLoop(c Case) []V {
 		m := op.msg.bytesOf()
 		werr := make(chan error, 1)
 		go func() { werr <- w.Write(m) }()
-		got, err, hung := readTimeout(r.Read, nil)
+		got, err, hung := readTimeout(r.Read, nil, nil)
 		if hung {
 			return append(vs.list, inc("step %d message %s: Read did not return within the timeout", step, op.msg)...)
 		}
@@ -279,7 +282,7 @@ func runLoop(c Case) []V {
 			}
 			if strings.Contains(err.Error(), "read limited at") {
 				// deterministic: the back-end's default read limit (32 KiB) was not lifted by the library's dialer
-				vs.add("read-limit:"+c.Kind+"-"+c.Backend, "loopback %s, step %d message %s of [%s]: Read: %v", where, step, op.msg, seqString(c.Seq), err)
+				vs.add("read-limit:"+strings.TrimSuffix(c.Kind+"-"+c.Backend, "-"), "loopback %s, step %d message %s of [%s]: Read: %v", where, step, op.msg, seqString(c.Seq), err)
 				return vs.list
 			}
 			return append(vs.list, inc("step %d message %s: Read: %v", step, op.msg, err)...)
